@@ -290,4 +290,132 @@ theorem step_glue {σ : Type} (M : Machine σ) (fuel : Nat) (c c' : Loop σ) (l 
     simp only [Option.some.injEq] at hs; subst hs
     exact (afterCall_glue M fuel true [] _ _ h).1
 
+
+/-! ### T7: every child exit is handed to the state machine at most once -/
+
+/-- a pid handed to `childTerminated` is no longer in `Supervisor.children` (hence neither running nor with
+an unhandled exit), it is handed over only once, and pids are never reused -/
+structure Noticed {σ : Type} (c : Loop σ) : Prop where
+  nodup : c.noticed.Nodup
+  gone : ∀ p, p ∈ c.noticed → p ∉ keys c.kids ∧ p < c.nextPid
+
+theorem handleAction_kids_new {σ : Type} (M : Machine σ) (fuel : Nat) :
+    ∀ (bits : List Bool) (c : Loop σ) (a : Action) (p : Nat),
+      p ∈ keys (handleAction M fuel bits c a).1.kids → p ∈ keys c.kids ∨ c.nextPid ≤ p := by
+  induction fuel with
+  | zero => intro bits c a p h; simp [handleAction] at h; exact Or.inl (by simpa using h)
+  | succ n ih =>
+    intro bits c a p h
+    rw [handleAction] at h
+    cases ha : a.act with
+    | nothing => simp [ha] at h; exact Or.inl (by simpa using h)
+    | terminate => simp [ha] at h; exact Or.inl (by simpa using h)
+    | terminateChildren =>
+      simp only [ha] at h
+      split at h <;> exact Or.inl h
+    | start =>
+      simp only [ha] at h
+      split at h
+      · exact Or.inl h
+      · cases hr : (M.childStarted c.m a.spec c.nextPid).2 with
+        | ok a' =>
+          simp only [hr] at h
+          rcases ih _ _ _ p h with h1 | h1
+          · rw [mem_keys_cons] at h1
+            rcases h1 with rfl | h1
+            · exact Or.inr (Nat.le_refl _)
+            · exact Or.inl h1
+          · simp at h1; exact Or.inr (by omega)
+        | err e =>
+          simp only [hr] at h
+          rw [mem_keys_cons] at h
+          rcases h with rfl | h
+          · exact Or.inr (Nat.le_refl _)
+          · exact Or.inl h
+        | panic =>
+          simp only [hr] at h
+          rw [mem_keys_cons] at h
+          rcases h with rfl | h
+          · exact Or.inr (Nat.le_refl _)
+          · exact Or.inl h
+
+theorem afterCall_noticed {σ : Type} (M : Machine σ) (fuel : Nat) (fromApi : Bool) (bits : List Bool) (c : Loop σ)
+    (r : σ × Res) (hg : Glue c) (h : Noticed c) : Noticed (afterCall M fuel fromApi bits c r) := by
+  have hac := afterCall_glue M fuel fromApi bits c r hg
+  constructor
+  · rw [hac.2.2.1]; exact h.nodup
+  · intro p hp
+    rw [hac.2.2.1] at hp
+    have ⟨h1, h2⟩ := h.gone p hp
+    refine ⟨?_, by have := hac.2.2.2.1; omega⟩
+    intro hk
+    -- kids of the result: old kids or fresh pids ≥ nextPid
+    unfold afterCall at hk
+    cases hr : r.2 with
+    | ok a =>
+      simp only [hr] at hk
+      have hff := finish_fields fromApi (handleAction M fuel bits { c with m := r.1 } a)
+      rw [hff.1] at hk
+      rcases handleAction_kids_new M fuel bits { c with m := r.1 } a p hk with h3 | h3
+      · exact h1 h3
+      · simp at h3; omega
+    | err e => simp only [hr] at hk; exact h1 hk
+    | panic => simp only [hr] at hk; exact h1 hk
+
+theorem step_noticed {σ : Type} (M : Machine σ) (fuel : Nat) (c c' : Loop σ) (l : Label)
+    (hg : Glue c) (h : Noticed c) (hs : step M fuel c l = some c') : Noticed c' := by
+  cases l with
+  | die pid r =>
+    simp only [step] at hs
+    split at hs; · simp at hs
+    split at hs
+    · simp only [Option.some.injEq] at hs; subst hs; exact ⟨h.nodup, h.gone⟩
+    · simp at hs
+  | deliver pid now bits =>
+    simp only [step] at hs
+    split at hs; · simp at hs
+    split at hs; · simp at hs
+    rename_i hst _ r hr
+    simp only [Option.some.injEq] at hs; subst hs
+    have hin := lookupReason_mem pid c.inflight r hr
+    have hpk : pid ∈ keys c.kids := (hg.kids_iff pid).mpr (Or.inr (by simp [keys]; exact ⟨r, hin⟩))
+    apply afterCall_noticed M fuel false bits _ _ (deliver_pre_glue c pid r c.m hg hr)
+    constructor
+    · simp only [List.nodup_cons]
+      exact ⟨fun hp => (h.gone pid hp).1 hpk, h.nodup⟩
+    · intro p hp
+      simp only [List.mem_cons] at hp
+      rcases hp with rfl | hp
+      · exact ⟨by simp only [mem_keys_filter_ne]; intro hx; exact hx.2 rfl, hg.fresh _ hpk⟩
+      · have ⟨h1, h2⟩ := h.gone p hp
+        exact ⟨by simp only [mem_keys_filter_ne]; intro hx; exact h1 hx.1, h2⟩
+  | foreign r now bits =>
+    simp only [step] at hs
+    split at hs; · simp at hs
+    simp only [Option.some.injEq] at hs; subst hs
+    have hg' : Glue ({ c with nextPid := c.nextPid + 1 } : Loop σ) := glue_of_fields hg rfl rfl rfl (Nat.le_succ _)
+    have hn' : Noticed ({ c with nextPid := c.nextPid + 1 } : Loop σ) :=
+      ⟨h.nodup, fun p hp => ⟨(h.gone p hp).1, by have := (h.gone p hp).2; simp; omega⟩⟩
+    exact afterCall_noticed M fuel false bits _ _ hg' hn'
+  | startChild name args bits =>
+    simp only [step] at hs
+    split at hs; · simp at hs
+    simp only [Option.some.injEq] at hs; subst hs
+    exact afterCall_noticed M fuel true bits _ _ hg h
+  | addChild name sig bits =>
+    simp only [step] at hs
+    split at hs; · simp at hs
+    simp only [Option.some.injEq] at hs; subst hs
+    exact afterCall_noticed M fuel true bits _ _ hg h
+  | enable name bits =>
+    simp only [step] at hs
+    split at hs; · simp at hs
+    simp only [Option.some.injEq] at hs; subst hs
+    exact afterCall_noticed M fuel true bits _ _ hg h
+  | disable name =>
+    simp only [step] at hs
+    split at hs; · simp at hs
+    simp only [Option.some.injEq] at hs; subst hs
+    exact afterCall_noticed M fuel true [] _ _ hg h
+
 end ErgoVerif.Sup
